@@ -268,13 +268,44 @@ def malformed_comps(ctx):
 # ---- (B) constructors --------------------------------------------------------------------
 
 
+import enum as _enum
+
+
+class _Quality(_enum.IntEnum):
+    LOOSE = 1
+    TIGHT = 2
+
+
+class _Mode(str, _enum.Enum):
+    FAST = "fast"
+
+
+class _GeV(float):
+    pass
+
+
+def odd_default(rnd, j):
+    """defaults a field may well have: now and then a value whose type is a subclass of a plain type (an IntEnum member, a
+    (str, Enum) member, a float subclass) - sent as the plain value"""
+    if rnd.random() < 0.25:
+        return rnd.choice([_Quality.TIGHT, _Mode.FAST, _GeV(j + 0.5), True, "s"])
+    return float(j)
+
+
+def plain_default(v):
+    for t, conv in ((bool, None), (int, int.__int__), (float, float.__float__), (str, str.__str__)):
+        if isinstance(v, t):
+            return v if conv is None or type(v) is t else conv(v)
+    return v
+
+
 def make_class(rnd, i):
     nf = rnd.randint(1, 5)
     names = rnd.sample(["a", "b", "c", "d", "pt", "eta", "n"], nf)
     ndef = rnd.randint(0, nf)
     kind = rnd.choice(["dataclass", "namedtuple"])
     if kind == "dataclass":
-        fields = [(n, float) if j < nf - ndef else (n, float, dataclasses.field(default=float(j))) for j, n in enumerate(names)]
+        fields = [(n, float) if j < nf - ndef else (n, float, dataclasses.field(default=odd_default(rnd, j))) for j, n in enumerate(names)]
         flavour = rnd.random()
         if flavour < 0.25:
             # a field that is not a constructor parameter, in the middle / at the end of the field list
@@ -309,7 +340,7 @@ def make_class(rnd, i):
             cls = type(cls)  # placeholder, replaced below
             import collections
 
-            cls = collections.namedtuple(f"NT{i}", names, defaults=[float(j) for j in range(nf - ndef, nf)])
+            cls = collections.namedtuple(f"NT{i}", names, defaults=[odd_default(rnd, j) for j in range(nf - ndef, nf)])
         if rnd.random() < 0.3:
             # the usual idiom: a class deriving from the generated tuple class (to add methods / a docstring)
             cls = type(f"NTSub{i}", (cls,), {"__slots__": (), "describe": lambda self: "x"})
@@ -371,7 +402,7 @@ def ctor_case(ctx, rnd, i):
         bound.apply_defaults()
         for k in list(bound.arguments):
             if k not in given:
-                bound.arguments[k] = ast.Constant(value=bound.arguments[k])
+                bound.arguments[k] = ast.Constant(value=plain_default(bound.arguments[k]))
                 ctx.count("ctor-fields-left-to-their-default")
         expect_error = False
     except TypeError:
